@@ -17,8 +17,49 @@ def list_identity_item(f):
     return struct.pack("<H", 1) + struct.pack(">hH4s8s", 2, 44818, f["ip"].to_bytes(4, "big"), b"\0" * 8) + ident_bytes(f) + bytes([f["state"]])
 
 
+_LISTED = None
+
+
+def listed_tables():
+    """(vendors, product types) as id -> name, read from the LITERAL listings in pycomm3/cip/status_info.py (the dict
+    displays in the source text, parsed with ast), not from the exported lookup tables that the module derives from them:
+    the property is about the names the listings give.  Falls back to the exported tables (id keys only) when the
+    source no longer has literal listings of that shape; which source was used is recorded in the evidence."""
+    global _LISTED
+    if _LISTED is not None:
+        return _LISTED
+    import ast
+    import os
+    import pycomm3.cip.status_info as si
+    found = {}
+    try:
+        tree = ast.parse(open(os.path.join(os.path.dirname(si.__file__), "status_info.py")).read())
+        for node in tree.body:
+            if isinstance(node, ast.Assign) and len(node.targets) == 1 and isinstance(node.targets[0], ast.Name) and isinstance(node.value, ast.Dict):
+                nm = node.targets[0].id.lstrip("_")
+                if nm in ("VENDORS", "PRODUCT_TYPES") and all(k is not None for k in node.value.keys):
+                    try:
+                        d = ast.literal_eval(node.value)
+                    except ValueError:
+                        continue
+                    ids = {k: v for k, v in d.items() if isinstance(k, int) and isinstance(v, str)}
+                    if len(ids) > len(found.get(nm, {})):
+                        found[nm] = ids
+    except (OSError, SyntaxError):
+        pass
+    src = {}
+    for nm in ("VENDORS", "PRODUCT_TYPES"):
+        if nm in found and len(found[nm]) >= 10:
+            src[nm] = "literal listing in status_info.py (%d ids)" % len(found[nm])
+        else:
+            found[nm] = {k: v for k, v in getattr(si, nm).items() if isinstance(k, int) and isinstance(v, str)}
+            src[nm] = "exported table (no literal listing found)"
+    _LISTED = (found["VENDORS"], found["PRODUCT_TYPES"], src)
+    return _LISTED
+
+
 def expected(f, with_list_fields):
-    from pycomm3.cip import VENDORS, PRODUCT_TYPES
+    VENDORS, PRODUCT_TYPES, _ = listed_tables()
     d = {}
     if with_list_fields:
         d["encap_protocol_version"] = 1
@@ -51,9 +92,12 @@ def run(ctx, model):
     blines, bpend = [], []
     # ---- codec level: every vendor / product-type id (stride in quick), every name length
     stride = ctx.budget(13, 1)
+    vend, ptypes, src = listed_tables()
+    ctx.extra["name_listings"] = src
     cases = [gen_fields(rng, vendor=v) for v in range(0, 65536, stride)] + [gen_fields(rng, ptype=p) for p in range(0, 65536, stride)] + \
+            [gen_fields(rng, vendor=v) for v in sorted(vend)] + [gen_fields(rng, ptype=p) for p in sorted(ptypes)] + \
             [gen_fields(rng, namelen=n) for n in range(256)] + [gen_fields(rng) for _ in range(ctx.budget(500, 5000))]
-    ctx.extra["exhaustive_subdomains"] = "vendor ids and product-type ids 0..65535 with stride %d; product-name lengths 0..255" % stride
+    ctx.extra["exhaustive_subdomains"] = "every listed vendor id and product-type id; all ids 0..65535 with stride %d; product-name lengths 0..255" % stride
     for f in cases:
         bs = ident_bytes(f)
         tail = bytes(rng.getrandbits(8) for _ in range(rng.choice([0, 0, 2])))
